@@ -300,7 +300,9 @@ def _process_state():
     """Process-wide settings that a library call has no business changing for its caller."""
     import numpy as np
 
-    env = {k: v for k, v in os.environ.items() if not k.startswith(("NSSVERIF_", "NUSPACESIM_VERIF"))}
+    # (dask's multiprocessing scheduler itself sets PYTHONHASHSEED=6640 in the parent so that its workers hash alike:
+    # behaviour of the trusted base, not of the code under test)
+    env = {k: v for k, v in os.environ.items() if not k.startswith(("NSSVERIF_", "NUSPACESIM_VERIF")) and k != "PYTHONHASHSEED"}
     return {
         "numpy error state (np.seterr)": dict(np.geterr()),
         "numpy print options": {k: (v if not callable(v) else "callable") for k, v in np.get_printoptions().items()},
